@@ -181,3 +181,25 @@ Theorem C03_write_format_is_source : forall o r,
     :: map SrcGen.src_sam_Write_1 (Bio.Model.Sam.tags_text o (Bio.Model.Sam.s_tags r)) ++ [SrcGen.src_sam_Write_2].
 Proof. exact SrcGenProofs.sam_write_is_source. Qed.
 Print Assumptions C03_write_format_is_source.
+
+(* ---- tie to the Go source by translation of whole function bodies (gen/ImpGen.v, written
+   by `harness gen-imp` on every run, in the embedding of Model/GoSem.v) ------------------- *)
+From Bio.gen Require ImpGen.
+From Bio.Model Require GoSem.
+From Bio.Proofs Require ImpProofs ImpProofsN.
+
+(* SAM.Write as translated from sam.go and tags.go — the eleven fixed fields in one Fprintf,
+   then one call per tag over tagsToText (the range over the tag map, tagToText with its type
+   switch on the `any` value, sort.Strings), then the newline — hands to a writer that never
+   fails exactly the chunks of the model, for every record and every float oracle.  A tag
+   value is one of byte, int, float64, string, []byte (GoSem.go_any); the Go map is its
+   association list (the order of the range does not matter: the texts are sorted). *)
+Theorem C03_write_is_source : forall o r,
+  ImpGen.imp_sam_SAM_Write o (ImpProofsN.sam_of r) = GoSem.Ret (Bio.Model.Sam.write_calls o r, false).
+Proof. exact ImpProofsN.imp_SAM_Write. Qed.
+Print Assumptions C03_write_is_source.
+
+Theorem C03_tags_to_text_is_source : forall o m,
+  ImpGen.imp_sam_tagsToText o (ImpProofsN.tags_of m) = GoSem.Ret (Bio.Model.Sam.tags_text o m).
+Proof. exact ImpProofsN.imp_tagsToText. Qed.
+Print Assumptions C03_tags_to_text_is_source.
